@@ -8,6 +8,7 @@ usage: python3-vt driver.py <PID> <tier> <seed>
 import importlib.util
 import json
 import os
+import re
 import random
 import shutil
 import subprocess
@@ -119,10 +120,58 @@ def second_opinion(smt2, timeout=60):
     return res
 
 
+_FV = {}
+
+
+def free_vars(e):
+    """ids of the uninterpreted constants of a z3 term (memoised on the ast id; terms are kept alive by the caller)"""
+    i = e.get_id()
+    if i in _FV:
+        return _FV[i]
+    out = set()
+    stack, seen = [e], set()
+    while stack:
+        t = stack.pop()
+        ti = t.get_id()
+        if ti in seen:
+            continue
+        seen.add(ti)
+        if ti in _FV and ti != i:
+            out |= _FV[ti]
+            continue
+        if z3.is_const(t) and t.decl().kind() == z3.Z3_OP_UNINTERPRETED:
+            out.add(ti)
+        else:
+            stack.extend(t.children())
+    _FV[i] = frozenset(out)
+    return _FV[i]
+
+
+def cone(assumptions, goal):
+    vs = set(free_vars(goal))
+    rest = [(a, free_vars(a)) for a in assumptions]
+    picked = []
+    changed = True
+    while changed:
+        changed = False
+        keep = []
+        for a, fv in rest:
+            if not fv or (fv & vs):
+                picked.append(a)
+                if not fv <= vs:
+                    vs |= fv
+                    changed = True
+            else:
+                keep.append((a, fv))
+        rest = keep
+    return picked
+
+
 def run_obligation(prog, ob, tool, seed, cross=True):
     t0 = time.time()
     row = {"name": ob["name"], "engine": "mirsym", "text": ob["text"], "tier": ob.get("tier", "quick"), "kind": "mirsym"}
     it = sym.Interp(prog)
+    it.merge_diamonds = bool(ob.get("merge_diamonds"))
     for sel, fn in ob.get("summaries", {}).items():
         it.summaries[sel] = fn
     func = prog.find(*ob["func"])
@@ -168,9 +217,13 @@ def run_obligation(prog, ob, tool, seed, cross=True):
     # panic freedom: every assert() reached under the precondition holds
     if not ob.get("allow_panics"):
         for pc, cond, msg in it.obligations:
+            if z3.is_true(z3.simplify(cond)):
+                # decided while encoding (concrete operands or interval propagation): counted, not sent to the solver
+                row["encoder_discharged"] = row.get("encoder_discharged", 0) + 1
+                continue
             queries.append(("no-panic: " + msg, pc, cond))
     for p in paths:
-        rv = p["ret"]
+        rv = p["arg1"] if ob.get("inout") else p["ret"]
         for label, cond in ob["post"](A, Ret(rv)):
             queries.append((label, p["pc"], cond))
     row["paths"] = len(paths)
@@ -179,12 +232,30 @@ def run_obligation(prog, ob, tool, seed, cross=True):
     verdict = "ok"
     sec = {}
     for label, pc, cond in queries:
-        s = z3.Solver()
-        s.set("timeout", ob.get("timeout_ms", 120000))
-        s.add(*pre); s.add(*pc); s.add(*it.lemmas); s.add(z3.Not(cond))
-        r = s.check()
+        # cone of influence: first decide the query with only those assumptions that (transitively) share a variable with
+        # the negated goal; dropping assumptions can only turn unsat into sat, so an unsat answer of the slice is an unsat
+        # answer of the full query, and anything else is decided again on the full set
+        allasm = list(pre) + list(pc) + list(it.lemmas)
+        sl = cone(allasm, z3.Not(cond))
+        r = None
+        if len(sl) < len(allasm):
+            s = z3.Solver()
+            s.set("timeout", ob.get("timeout_ms", 120000))
+            s.add(*sl); s.add(z3.Not(cond))
+            if os.environ.get("MIRSYM_DUMP"):
+                open(os.path.join(os.environ["MIRSYM_DUMP"], ob["name"] + "__" + re.sub(r"\W+", "_", label)[:60] + ".smt2"), "w").write(s.to_smt2())
+            r = s.check()
+            if r == z3.unsat:
+                row["sliced_queries"] = row.get("sliced_queries", 0) + 1
+        if r != z3.unsat:
+            s = z3.Solver()
+            s.set("timeout", ob.get("timeout_ms", 120000))
+            s.add(*allasm); s.add(z3.Not(cond))
+            r = s.check()
         if r == z3.unsat:
-            if cross and ob.get("cross", True):
+            n_np = sum(1 for k in sec if k.startswith("no-panic"))
+            # second opinion on every post-condition query and on the first few panic-freedom queries (they are near-identical)
+            if cross and ob.get("cross", True) and (not label.startswith("no-panic") or n_np < 3):
                 so = second_opinion(s.to_smt2().replace("(check-sat)", ""), timeout=ob.get("cross_timeout", CROSS_TIMEOUT))
                 sec[label] = so
                 if "sat" in so.values() or "error" in so.values():
@@ -283,6 +354,8 @@ def validate_translator(prog, ob, tool, seed, n=40):
         for w in widths:
             c = rnd.choice([0, 1, 2, (1 << 32) - 1, 1 << 32, (1 << w) - 1, (1 << (w - 1)), rnd.getrandbits(w), rnd.getrandbits(w), rnd.getrandbits(w // 2)])
             vals.append(c % (1 << w))
+        if ob.get("vec_gen"):
+            vals = ob["vec_gen"](rnd)
         if ob.get("concrete_pre") and not ob["concrete_pre"](vals):
             continue
         st, out = native_eval(tool, ob["native"], vals)
@@ -305,7 +378,8 @@ def validate_translator(prog, ob, tool, seed, n=40):
             continue
         if len(paths) != 1:
             return done, f"{len(paths)} paths on concrete input {vals}"
-        got = [z3.simplify(e).as_long() if z3.is_int_value(z3.simplify(e)) else (1 if z3.is_true(z3.simplify(e)) else 0) for e in flat(paths[0]["ret"])]
+        got = [z3.simplify(e).as_long() if z3.is_int_value(z3.simplify(e)) else (1 if z3.is_true(z3.simplify(e)) else 0)
+               for e in flat(paths[0]["arg1"] if ob.get("inout") else paths[0]["ret"])]
         if got != out:
             return done, f"translator mismatch on {ob['name']}{vals}: native {out} vs mirsym {got}"
         done += 1
@@ -330,8 +404,10 @@ def run_property(pid, tier, seed):
         obs = [o for o in obs if os.environ["MIRSYM_ONLY"] in o["name"]]
     crates = sorted({o.get("crate", "math") for o in obs})
     t0 = time.time()
-    dumps = dump_mir(crates)
-    progs = {c: mir.Program(t) for c, t in dumps.items()}
+    # "math+crypto" = one program over the concatenated dumps (calls across the crate boundary are resolved by name)
+    single = sorted({x for c in crates for x in c.split("+")})
+    dumps = dump_mir(single)
+    progs = {c: mir.Program("\n".join(dumps[x] for x in c.split("+"))) for c in crates}
     tool = build_native()
     rows = []
     for ob in obs:
